@@ -60,6 +60,11 @@ CHECKS["C18"] = dict(cat=MC, engine="E2 xseq (single-node mutation enumeration t
    text="Every YAML node of three base documents is deleted, retyped (10 values), duplicated or given special names and loaded exactly as main() does; every member digraph on 1-2 (thorough 3) balancers + direct is loaded and probed with one request per balancer in a child process; a rule list with every field mutated (16 values) and 10 nesting forms at depths 10..10000 (thorough 100000) is posted through the real handler in a child process; 51 configuration mutants go through the real binary's --test, start-up, one request per listener, a rule POST naming every connector and a GC pass.",
    note="A child process dying stands for the proxy dying. load() mirrors main()'s sequence (Config::load's own validation and clap handling only via the real binary). Kernel scheduling uncontrolled in the E4 part.",
    ref="DESIGN.md §3 C18")
+CHECKS["C16"] = dict(cat=MC, engine="E1 xsched (real registry + GC task + access log + API handlers, scripted clients)",
+   technique="stateless exhaustive schedule exploration (deviation bound 1, thorough 2) of 1-3 connections over 7 outcomes with observers and registry-lock holders; final live/history/access-log compared with a list reference",
+   text="Connections with every outcome (relayed, relayed with early data, denied, connect failed, aborted mid-transfer, handshake garbage, handshake EOF) run through the real create_context / h11c_handshake / process_request / relay with the real GC task, access log and API handlers; an observer calls /live at every position and a holder task keeps the alive or terminated lock across a scheduling point; after the last end and two GC periods: ids distinct, nothing live, history newest-first and bounded, every connection exactly once in the log, truthful listener/source/target/upstream, lifecycle grammar with exactly one terminal state, byte counters = payload relayed.",
+   note="Access-log file I/O runs on tokio's blocking pool (real threads): the closing phase is executed but not branched on. Timestamps not compared. Only the HTTP-style listener path is in memory.",
+   ref="DESIGN.md §3 C16")
 NOT_YET = "check not built yet in this revision (see DESIGN.md §3 for the planned model-checking design)"
 def main():
     checks = []
@@ -93,7 +98,7 @@ def main():
             "add_only": True,
         },
         "engines": [
-            {"name": "E1 xsched", "path": "harness/src/verif/xsched.rs", "serves_properties": ["C14", "C15"], "kind_free_text": "stateless deviation-bounded DFS over task schedules and scripted environment answers of real async code"},
+            {"name": "E1 xsched", "path": "harness/src/verif/xsched.rs", "serves_properties": ["C14", "C15", "C16"], "kind_free_text": "stateless deviation-bounded DFS over task schedules and scripted environment answers of real async code"},
             {"name": "E3 loom", "path": "harness/src/verif/c17.rs", "serves_properties": ["C17"], "kind_free_text": "loom exhaustive interleavings of the real load balancer (feature loomlb => cfg(redproxy_verif_loom))"},
             {"name": "E2 xseq", "path": "harness/src/verif/", "serves_properties": [p for p in CHECKS], "kind_free_text": "bounded-exhaustive operation-sequence / input-shape enumeration on the real code vs reference model"},
         ],
